@@ -145,7 +145,10 @@ class StorageKeyFormingConvention(CollisionEvadingConvention):
     def make_keys(self, key: str, *, body: bodies.Body | None = None) -> Iterable[str]:
         key = key if body is None else self.mark_key(key, body=body)
         v2_keys = [self.make_v2_key(key)]
-        v1_keys = [self.make_v1_key(key)] if self.v1 else []
+        # V1 keys count the prefix into the 63 chars: with a prefix of 55+ chars, there is no room
+        # left for the key (the cut is zero or negative): such keys are never valid or storable.
+        v1_fits = len(f'{self.prefix}/') + len(self.make_suffix('')) < 63
+        v1_keys = [self.make_v1_key(key)] if self.v1 and v1_fits else []
         return v2_keys + list(set(v1_keys) - set(v2_keys))
 
     @staticmethod
